@@ -10,7 +10,7 @@
    (every rule when L is empty). *)
 From Coq Require Import List Bool Arith.
 From Coq Require Import Strings.String Strings.Byte.
-From Falco Require Import Base.Bytes Model.Ignore Model.IgnoreSpec Model.IgnoreLegacy
+From Falco Require Import Base.Bytes Gen.LintGen Model.Ignore Model.IgnoreSpec Model.IgnoreLegacy
   Proofs.IgnoreBasics Proofs.IgnoreSim Proofs.IgnoreExact Proofs.IgnoreNT Proofs.IgnoreRange Proofs.IgnoreRange2
   Proofs.IgnoreParse Proofs.IgnoreExamples.
 Import ListNotations.
@@ -81,6 +81,17 @@ Theorem C12_range_exact_top :
     = filter (region_filter [] (List.length before) (S (List.length mid)) L) (report (before ++ ki :: mid ++ kj :: after)).
 Proof. exact range_exact_top. Qed.
 
+(* falco-ignore-start without falco-ignore-end: the range runs to the end of the file.  Exactly the diagnostics of
+   the declaration that carries it and of the declarations after it go - the deferred unused/declaration diagnostics of
+   the declarations BEFORE it stay (repaired: Lint ends an open range before the lintUnused passes) *)
+Theorem C12_range_open_top :
+  forall L c1, parse_ignore_comment c1 = Some (Start, L) ->
+  forall before ki after k1,
+    forallb range_free before = true -> range_free ki = true -> forallb range_free after = true ->
+    report (before ++ add_leading k1 c1 ki :: after)
+    = filter (region_filter [] (List.length before) (S (List.length after)) L) (report (before ++ ki :: after)).
+Proof. exact (fun L c1 H => range_open_top L c1 H). Qed.
+
 (* the engine of the three range theorems, in ANY context: wherever the walk stands (state s,
    queues qv qp, owner path b, index i0), provided the range set does not already ignore the
    rules of the pair ([rg_clear]), e.g. after an earlier pair has been closed *)
@@ -103,6 +114,12 @@ Proof. exact range_list. Qed.
 Theorem C12_parse_render :
   forall mk k L, forallb plain_rule L = true -> parse_ignore_comment (render mk k L) = Some (k, L).
 Proof. exact parse_render. Qed.
+
+(* every rule name the linter declares (Gen/LintGen.v, regenerated from linter/rules.go) can be named in a directive: a
+   rule list made of declared names, in any of the three comment forms, is read back as written *)
+Theorem C12_declared_rules_renderable :
+  forall mk k L, incl L rule_names -> parse_ignore_comment (render mk k L) = Some (k, L).
+Proof. exact (fun mk k L H => parse_render mk k L (forallb_incl plain_rule L rule_names H declared_rules_plain)). Qed.
 
 (* KNOWN FINDING (known_findings.txt, construct "overlapping-ranges-sharing-rules").  The range
    theorems above require that no other start / end directive lies inside the new pair's region
@@ -163,6 +180,11 @@ Theorem C12_unrepaired_unused_variable :
   map snd (report_vcl p_unused_variable) = map bs ["macro"; "r1"]%string.
 Proof. exact unrepaired_unused_variable. Qed.
 
+Theorem C12_unrepaired_open_range :
+  map snd (report_vcl_unrepaired p_open_range) = map bs ["scope"; "r0"]%string /\
+  map snd (report_vcl p_open_range) = map bs ["scope"; "r0"; "unused/declaration"]%string.
+Proof. exact unrepaired_open_range. Qed.
+
 Print Assumptions C12_ignore_restores.
 Print Assumptions C12_ignore_exact_next_line.
 Print Assumptions C12_ignore_exact_this_line.
@@ -178,3 +200,6 @@ Print Assumptions C12_unrepaired_switch_case.
 Print Assumptions C12_unrepaired_else.
 Print Assumptions C12_unrepaired_block_comment.
 Print Assumptions C12_unrepaired_unused_variable.
+Print Assumptions C12_range_open_top.
+Print Assumptions C12_declared_rules_renderable.
+Print Assumptions C12_unrepaired_open_range.
